@@ -940,7 +940,7 @@ def build_specs(eng):
     @add('C09', 'add_equal', 2)
     def _(eng, rng):
         n = rng.randint(1, 7)
-        num = weighted_choice(rng, [(rng.randrange(1 << n), 6), (0, 1), ((1 << n) - 1, 1), (1 << n, 1), ((1 << n) + rng.randint(1, 9), 1)])
+        num = weighted_choice(rng, [(rng.randrange(1 << n), 6), (0, 1), ((1 << n) - 1, 1), (1 << n, 1), ((1 << n) + rng.randint(1, 9), 1), (-rng.randint(1, (1 << n) + 2), 1)])
 
         def bind(host, chosen):
             return (lambda: A.add_equal(host, chosen, num)), f'add_equal({chosen},{num})'
@@ -948,7 +948,7 @@ def build_specs(eng):
         def check(ins, outs, L):
             for j in range(L):
                 if bool(outs[0][j]) != (ins[0][j] == num):
-                    return ('equal' + (':does-not-fit' if num >= (1 << n) else ''), f'lane {j}: operand {ins[0][j]} const {num} -> {outs[0][j]}')
+                    return ('equal' + (':does-not-fit' if (num >= (1 << n) or num < 0) else ''), f'lane {j}: operand {ins[0][j]} const {num} -> {outs[0][j]}')
             return None
 
         return dict(need=n, bind=bind, operands=lambda ch: [list(ch)], results=lambda rv: [[rv]], check=check)
